@@ -2,7 +2,7 @@
     the family number; the verdict says whether the implementation's observed
     behaviour equals the model's. *)
 From Coq Require Import List ZArith Bool.
-From FF Require Import Sx Dispatch TaskTree StoreModel StoreCheck PreCheck EngineMon TaskRun ShareData Vars KeeperCheck MutexCheck Commander ShutdownCheck EngineCheck.
+From FF Require Import Sx Dispatch TaskTree StoreModel StoreCheck PreCheck EngineMon TaskRun ShareData Vars KeeperCheck MutexCheck Commander ShutdownCheck EngineCheck TablesCheck.
 Import ListNotations.
 Local Open Scope Z_scope.
 
@@ -19,6 +19,7 @@ Definition run_monitor (family : Z) (c : sx) : option bool :=
   | 70 => monitor_mutex c
   | 80 => monitor_admit c
   | 90 => monitor_skel c
+  | 91 => monitor_tables c
   | 130 => monitor_core c
   | _ => if (100 <? family) && (family <? 200) then monitor_journal (family - 100) c else None
   end.
@@ -46,6 +47,7 @@ Definition run_case (family : Z) (c : sx) : verdict :=
   | 70 => check_mutex c
   | 80 => check_admit c
   | 90 => check_skel c
+  | 91 => check_tables c
   | 130 => check_core c
   | _ => if (100 <? family) && (family <? 200)
          then match check_journal_store c with
